@@ -234,7 +234,11 @@ class AB:
             n = rng.choice([0, 7, 123456789, 2 ** 63])
             self.b.mark += 1
             txt = ("213 %d" % n).encode()
-            if rng.random() < 0.5:
+            forced = getattr(self, "force_size", None)
+            if forced:
+                txt = forced.pop(0)
+                self.dist.add("size-reply:malformed-fixed-list")
+            elif rng.random() < 0.5:
                 # ... or one it cannot: blanks, padding, signs, overflow, nothing at all - the command goes on, the client too
                 txt = rng.choice([b"213  ", b"213    ", b"213 \t", b"213  ", b"213 \t ", b"213   ", b"213", b"213 ", b"213  42", b"213 42 ", b"213 -1", b"213 +5", b"213 4 2",
                                   b"213 18446744073709551616", b"213 99999999999999999999999", b"213 0x10", b"213 1e3", b"213 12abc"])
@@ -459,6 +463,18 @@ def fam_session(rng, n, dist):
             a.offline()
         if rng.random() < 0.7:
             a.exit(rng.choice([221, 221, 500]))
+        out.append(a.scenario("session"))
+    # always there (not left to the draw): every malformed 213 answer to SIZE, three sessions
+    texts = [b"213  ", b"213    ", b"213 \t", b"213 \t ", b"213", b"213 ", b"213  42", b"213 42 ", b"213 -1", b"213 +5", b"213 4 2",
+             b"213 18446744073709551616", b"213 99999999999999999999999", b"213 0x10", b"213 1e3", b"213 12abc", b"213 \t\t", b"213 7"]
+    for k in range(3):
+        a = AB(rng, dist)
+        a.open((220,))
+        a.force_size = list(texts[k::3])
+        while a.force_size and a.connected:
+            a.net_simple("size", code=213)
+        a.net_simple("pwd")
+        a.exit(221)
         out.append(a.scenario("session"))
     return out
 
